@@ -147,19 +147,51 @@ theorem witness_maxValidatorCnt_index :
     (handleTx (sLim (-1)) true 1 delegateToB).2.panic = "limiter: index out of range (maxValidatorCnt-1 < 0)" := by
   decide
 
-/-- REPAIRED (d28c085).  Before the repair an unstaking in this state divided by the zero base power
-    ("limiter: division by zero (updatable)"; reproduced on the real node with all validators slashed
-    to power 0).  With `_ratio = 0` for a non-positive base the same unstaking is now validated without
-    a panic: the limiter accepts it (the updatable ratio 0 exceeds nothing) and validation succeeds. -/
+/-- REPAIRED (d28c085).  Before the repair an unstaking in this state (limiter base power 0) divided by
+    zero in `checkUpdatablePowerLimit` ("limiter: division by zero (updatable)"; reproduced on the real
+    node with all validators slashed to power 0).  With `_ratio = 0` for a non-positive base the same
+    unstaking is now handled without a panic — although `LimiterOK` does not hold here
+    (`maxValidatorCnt = 0`; delegations still hit the index panic above): the limiter accepts the
+    power decrease (on the evaluating path it answers `ok`), and `handleTx` answers without panic. -/
 theorem limiter_base_zero_no_panic :
     let s := (sLim 0).setAcct true { addr := B, bal := 100 * RIGO }
-    (s.limiter.base = 0 ∧ s.lastVals.length = 3) ∧
-    (∀ site, s.limiter.check B 10 (-10) false ≠ .panic site) ∧
-    (∀ site, validateUnstaking s true unstakeB ≠ .error (.panic site)) := by
+    (s.limiter.base = 0 ∧ s.limiter.maxCnt = 0 ∧ s.lastVals.length = 3) ∧
+    (match s.limiter.check B 10 (-10) false with | .ok _ => true | _ => false) = true ∧
+    (handleTx s true 1 unstakeB).2.panic = "" := by
   intro s
-  refine ⟨by decide, ?_, ?_⟩
-  · exact check_noPanic (Or.inr ⟨by decide, by decide⟩) _ _ _ _
-  · exact validateUnstaking_noPanic (by decide) rfl (fun _ => Or.inr ⟨by decide, by decide⟩)
+  refine ⟨by decide, by decide, ?_⟩
+  have hfin : ∀ k : String, s.accts.fin[k]? =
+      if ledgerKey B = k then some { addr := B, bal := 100 * RIGO }
+      else if ledgerKey A = k then some { addr := A, bal := 100 * RIGO } else none := by
+    intro k
+    show ((({} : KMap Account).insert (ledgerKey A) { addr := A, bal := 100 * RIGO }).insert (ledgerKey B)
+      { addr := B, bal := 100 * RIGO })[k]? = _
+    rw [kmap_get_insert, kmap_get_insert]; simp
+  apply handleTx_noPanic_core (Or.inl (by decide))
+  · unfold FeeSane; decide
+  · intro k a hk
+    have hk' : s.accts.fin[k]? = some a := hk
+    rw [hfin] at hk'
+    split at hk'
+    · simp at hk'; subst hk'; decide
+    · split at hk'
+      · simp at hk'; subst hk'; decide
+      · simp at hk'
+  · intro k r hk
+    have hk' : ({} : KMap Reward)[k]? = some r := hk
+    simp at hk'
+  · intro _
+    exact AddrOK_insert (AddrOK_insert AddrOK_empty { addr := A, bal := 100 * RIGO }) { addr := B, bal := 100 * RIGO }
+  · intro _ hv
+    exact absurd hv (not_viaEvm_of_type (by decide) (by decide))
+  · intro ac recv _
+    rw [typeValidate_unstaking rfl]
+    apply validateUnstaking_noPanic_nonneg (by decide) rfl
+    intro d st hd hm
+    have hd' : (({} : KMap Delegatee).insert (ledgerKey B) delegB)[ledgerKey B]? = some d := hd
+    rw [kmap_get_insert] at hd'
+    simp at hd'; subst hd'
+    simp [delegB] at hm; subst hm; decide
 
 /-- **FeeSane dropped** (governance gas price ≥ 2^192): `gas × price + amount` wraps to 0, the balance
     check passes for an account that owns nothing, and `AmountToPower(amount)` panics. -/
